@@ -149,7 +149,7 @@ func seenMarksWith(fns []*ssa.Function, isTypeSet func(types.Type) bool) []seenL
 					continue
 				}
 				isUnmark := func(x ssa.Instruction) bool {
-					if u, ok := x.(*ssa.MapUpdate); ok && u.Map == mu.Map && u.Key == mu.Key {
+					if u, ok := x.(*ssa.MapUpdate); ok && sameValue(u.Map, mu.Map) && u.Key == mu.Key {
 						if k, isK := u.Value.(*ssa.Const); isK && k.Value != nil && k.Value.String() == "false" {
 							return true
 						}
@@ -157,7 +157,7 @@ func seenMarksWith(fns []*ssa.Function, isTypeSet func(types.Type) bool) []seenL
 					if ci, ok := x.(ssa.CallInstruction); ok {
 						if _, isGo := x.(*ssa.Go); !isGo {
 							cc := ci.Common()
-							if bi, ok := cc.Value.(*ssa.Builtin); ok && bi.Name() == "delete" && len(cc.Args) == 2 && cc.Args[0] == mu.Map && cc.Args[1] == mu.Key {
+							if bi, ok := cc.Value.(*ssa.Builtin); ok && bi.Name() == "delete" && len(cc.Args) == 2 && sameValue(cc.Args[0], mu.Map) && cc.Args[1] == mu.Key {
 								return true
 							}
 						}
